@@ -273,6 +273,14 @@ def random_spec(rng):
     nodes["text"] = {"group": "inline"}
     for name, spec in il_specs.items():
         nodes[name] = spec
+    # some types get a second attribute of the opposite kind, before or after the first: a defaulted attribute followed
+    # by a required one (and the reverse) — "has required attributes" must look at all of them
+    for name, spec in nodes.items():
+        a = spec.get("attrs")
+        if a and len(a) == 1 and name != "doc" and rng.random() < 0.3:
+            (k, v), = a.items()
+            other = ("z_" + k, {} if "default" in v else {"default": rng.choice([0, "d", None])})
+            spec["attrs"] = dict([other, (k, v)] if rng.random() < 0.5 else [(k, v), other])
     return {"nodes": nodes, "marks": marks}
 
 
